@@ -902,6 +902,9 @@ func TestVerifC04Justice(t *testing.T) {
 				case "StaleTouch":
 					// status update through a stale handle (see channel_exec_test.go): the
 					// model leaves everything unchanged; not exercised by this executor
+				case "RecvBadRev":
+					// adversarial revocation (see channel_exec_test.go): refused, nothing
+					// changes; not exercised by this executor
 				case "LiveRefresh":
 					// channelLink.UpdateShortChanID re-reads the live channel's state
 					err = me.lc.State().Refresh()
